@@ -40,5 +40,35 @@ pub(crate) mod verif_simd_models {
             }
         }
         assert!(ran > 0, "no SIMD variant available on this CPU: lane models not validated");
+        // whole-slice models (prefix / chunks / suffix structure) against the real functions on unaligned slices
+        let mut ran2 = 0;
+        for it in 0..2000usize {
+            let off = (next() % 0x7FFF_FFFF) as i32;
+            let mut a = A([0; 32]);
+            for x in a.0.iter_mut() {
+                *x = match next() % 3 { 0 => next() as i32, 1 => off.wrapping_add((next() % 7) as i32 - 3), _ => (next() % 0x7FFF_FFFF) as i32 };
+            }
+            let k = it % 8;
+            let n = 8 + (next() % 17) as usize; // k + n <= 32
+            if std::arch::is_x86_feature_detected!("avx2") {
+                let mut real = A(a.0);
+                let mut model = a.0;
+                let pre = unsafe { real.0[k..k + n].align_to::<core::arch::x86_64::__m256i>().0.len() };
+                unsafe { super::normalize_avx2(&mut real.0[k..k + n], off) };
+                model_normalize_avx2(&mut model[k..k + n], off, pre);
+                assert_eq!(real.0, model, "AVX2 whole-slice model differs (k={k}, n={n}, off={off})");
+                ran2 += 1;
+            }
+            if std::arch::is_x86_feature_detected!("sse4.1") {
+                let mut real = A(a.0);
+                let mut model = a.0;
+                let pre = unsafe { real.0[k..k + n].align_to::<core::arch::x86_64::__m128i>().0.len() };
+                unsafe { super::normalize_sse41(&mut real.0[k..k + n], off) };
+                model_normalize_sse41(&mut model[k..k + n], off, pre);
+                assert_eq!(real.0, model, "SSE4.1 whole-slice model differs (k={k}, n={n}, off={off})");
+                ran2 += 1;
+            }
+        }
+        assert!(ran2 > 0);
     }
 }
